@@ -132,6 +132,10 @@ val flat_map : ('a1 -> 'a2 list) -> 'a1 list -> 'a2 list
 
 val fold_left : ('a1 -> 'a2 -> 'a1) -> 'a2 list -> 'a1 -> 'a1
 
+val existsb : ('a1 -> bool) -> 'a1 list -> bool
+
+val forallb : ('a1 -> bool) -> 'a1 list -> bool
+
 val filter : ('a1 -> bool) -> 'a1 list -> 'a1 list
 
 val combine : 'a1 list -> 'a2 list -> ('a1 * 'a2) list
@@ -561,6 +565,80 @@ val is_vec_mat : int list -> int list -> bool
 
 val is_mat_mat : int list -> int list -> bool
 
+val mem_nat : int -> int list -> bool
+
+val pair_cost : int list -> int list -> int list -> int list -> int
+
+val res_labels : int list -> int list -> int list
+
+val res_dims : int list -> int list -> int list -> int list -> int list
+
+val concat_labels : int list -> int list -> int list
+
+val concat_dims : int list -> int list -> int list -> int list -> int list
+
+val argmin2 : int -> int -> int
+
+val argmin3 : int -> int -> int -> int
+
+val argmin4 : int -> int -> int -> int -> int
+
+val triplet_costs :
+  int list -> int list -> int list -> int list -> int list -> int list -> int
+  list
+
+val which_variant :
+  int list -> int list -> int list -> int list -> int list -> int list -> int
+
+val staged_labels : int -> int list -> int list -> int list -> int list
+
+val staged_dims :
+  int -> int list -> int list -> int list -> int list -> int list -> int list
+  -> int list
+
+val min4 : int list -> int
+
+val triple_then :
+  int list -> int list -> int list -> int list -> int list -> int list -> int
+  list -> int list -> int
+
+val quartet_costs :
+  int list -> int list -> int list -> int list -> int list -> int list -> int
+  list -> int list -> int list
+
+val which_variant4 :
+  int list -> int list -> int list -> int list -> int list -> int list -> int
+  list -> int list -> int
+
+val labels_consistent : int list -> int list -> bool
+
+val pair :
+  scalar -> int list -> int list -> int list -> int list -> (int -> t) ->
+  (int -> t) -> int -> t
+
+val network3 :
+  scalar -> int list -> int list -> int list -> int list -> int list -> int
+  list -> (int -> t) -> (int -> t) -> (int -> t) -> int -> t
+
+val declared_dims3 :
+  int list -> int list -> int list -> int list -> int list -> int list -> int
+  list
+
+val stage4 :
+  scalar -> bool -> int list -> int list -> int list -> int list -> int list
+  -> int list -> int list -> int list -> (int -> t) -> (int -> t) -> (int ->
+  t) -> (int -> t) -> bool * (int -> t)
+
+val network4 :
+  scalar -> int list -> int list -> int list -> int list -> int list -> int
+  list -> int list -> int list -> (int -> t) -> (int -> t) -> (int -> t) ->
+  (int -> t) -> bool * (int -> t)
+
+val network4_accepts_all :
+  scalar -> int list -> int list -> int list -> int list -> int list -> int
+  list -> int list -> int list -> (int -> t) -> (int -> t) -> (int -> t) ->
+  (int -> t) -> bool
+
 val run_matmul_Z :
   cfg -> ety -> int -> int -> int -> z list -> z list -> z list
 
@@ -623,3 +701,16 @@ val run_einsum :
   list * z list
 
 val run_classify : int list -> int list -> bool list
+
+val run_network3 :
+  int list -> int list -> int list -> int list -> int list -> int list -> z
+  list -> z list -> z list -> int list * (int list * z list)
+
+val run_triplet_costs :
+  int list -> int list -> int list -> int list -> int list -> int list -> int
+  list
+
+val run_network4 :
+  int list -> int list -> int list -> int list -> int list -> int list -> int
+  list -> int list -> z list -> z list -> z list -> z list -> int
+  list * (bool list * z list)
